@@ -72,6 +72,8 @@ def n_runs(tier):
 def gen_spec(seed, index, tier):
     rng = core.rng_of(seed, "c14")
     w = World.generate(seed, max_atoms=rng.choice([12, 16, 24, 36]))
+    if rng.random() < 0.12:
+        w.spec["fc_sign"] = -1.0  # imaginary modes: the sign convention of reported frequencies is part of "the same phonons"
     mesh = [rng.randint(1, 3) for _ in range(3)]
     nt = rng.randint(2, 5)
     tasks = []
@@ -81,7 +83,8 @@ def gen_spec(seed, index, tier):
                  conn=rng.random() < 0.3, direction=rng.choice([None, None, [1, 0, 0], [0.3, -0.2, 0.5], [0, 0, 1]]),
                  qsel=[rng.randint(0, 26) for _ in range(rng.randint(1, 6))], extra_q=rng.choice([None, None, [1, 0, 0], [0, 1, 1], [0.13, 0.27, -0.31], [1.5, 0.5, 0]]),
                  abandon=rng.randint(0, 4), fmt=rng.choice(["yaml", "hdf5"]), what=rng.choice(["qpoints", "band", "mesh"]),
-                 through_gamma=rng.random() < 0.3, call=rng.choice(["dm_at_q", "freqs", "freqs_vecs", "gv_at_q", "dm_run"]))
+                 through_gamma=rng.random() < 0.3, call=rng.choice(["dm_at_q", "freqs", "freqs_vecs", "gv_at_q", "dm_run"]),
+                 segments=rng.choice([1, 1, 2, 2, 3]), join=rng.choice(["gamma", "point", "none"]))
         tasks.append(t)
     order = [rng.randint(0, 99) for _ in range(60)]
     variant = "sim" if rng.random() < 0.55 else "serial"
@@ -147,11 +150,19 @@ class Ctx:
 
 
 def _dirkey(ctx, q, direction):
+    """Approach direction at the zone centre (NAC only): unit Cartesian vector, sign-normalised (d and -d are the same limit)."""
     if not ctx.has_nac:
         return None
     if direction is not None and _is_G(q):
-        d = np.array(direction, dtype=float)
-        return ("dir",) + tuple(np.round(d / np.linalg.norm(d), 9))
+        rec = np.linalg.inv(ctx.ph.primitive.cell)
+        d = rec @ np.array(direction, dtype=float)
+        d = d / np.linalg.norm(d)
+        for x in d:
+            if abs(x) > 1e-9:
+                if x < 0:
+                    d = -d
+                break
+        return ("dir",) + tuple(np.round(d, 6) + 0.0)
     return None
 
 
@@ -175,6 +186,8 @@ def task_qpoints(ctx, tid, t):
 
 
 def _band_path(ctx, t):
+    """One to three segments; consecutive segments may be joined at Gamma (approached from different directions), at an
+    ordinary point, or not joined at all."""
     qs = _task_qlist(ctx, t)
     a = qs[0]
     b = qs[-1] if len(qs) > 1 else [0.5, 0.5, 0.0]
@@ -182,7 +195,24 @@ def _band_path(ctx, t):
         a = [0.0, 0.0, 0.0]
     if np.allclose(a, b):
         b = [0.5, 0.25, 0.0]
-    return [np.linspace(a, b, 3).tolist()]
+    paths = [np.linspace(a, b, 3).tolist()]
+    nseg = t.get("segments", 1)
+    extra = [[0.5, 0.0, 0.5], [0.0, 0.5, 0.0], [0.25, 0.0, 0.25]]
+    for k in range(1, nseg):
+        join = t.get("join", "none")
+        if join == "gamma":
+            start = [0.0, 0.0, 0.0]
+            if k == 1:
+                paths[0] = np.linspace(b if not np.allclose(b, 0) else [0.5, 0, 0], start, 3).tolist()
+        elif join == "point":
+            start = paths[-1][-1]
+        else:
+            start = [0.1 * k, 0.2, 0.05]
+        end = extra[(k - 1) % len(extra)]
+        if np.allclose(start, end):
+            end = [0.5, 0.5, 0.5]
+        paths.append(np.linspace(start, end, 3).tolist())
+    return paths
 
 
 def task_band(ctx, tid, t):
@@ -192,11 +222,22 @@ def task_band(ctx, tid, t):
     d = ph.get_band_structure_dict()
     # a NAC band path that is collinear with Gamma uses the path direction at every point: key those separately
     rec = np.linalg.inv(ph.primitive.cell)
-    collinear = ctx.has_nac and np.linalg.norm(np.cross(rec @ np.array(path[0][0]), rec @ np.array(path[0][-1]))) < 1e-5
-    for i, q in enumerate(d["qpoints"][0]):
-        dk = ("band-dir", tid) if collinear else None
-        ctx.report(tid, "band", q, freq=d["frequencies"][0][i], vecs=(d["eigenvectors"][0][i] if d.get("eigenvectors") is not None else None),
-                   gv=(d["group_velocities"][0][i] if d.get("group_velocities") is not None else None), dirkey=dk, connected=t["conn"])
+    for ip, seg in enumerate(path):
+        collinear = ctx.has_nac and np.linalg.norm(np.cross(rec @ np.array(seg[0]), rec @ np.array(seg[-1]))) < 1e-5
+        for i, q in enumerate(d["qpoints"][ip]):
+            dk = None
+            if collinear:
+                dseg = np.array(seg[0]) - np.array(seg[-1])
+                dk = _dirkey(ctx, q, dseg) if _is_G(q) else ("band-collinear", tid, ip)
+            ctx.report(tid, "band", q, freq=d["frequencies"][ip][i], vecs=(d["eigenvectors"][ip][i] if d.get("eigenvectors") is not None else None),
+                       gv=(d["group_velocities"][ip][i] if d.get("group_velocities") is not None else None), dirkey=dk, connected=t["conn"])
+            if collinear and _is_G(q):
+                # the same limit through the dynamical-matrix object directly
+                dm = ph.dynamical_matrix
+                dm.run(np.array(q, dtype="double"), q_direction=dseg)
+                D = dm.dynamical_matrix.copy()
+                wv, vv = np.linalg.eigh(D)
+                ctx.report(tid, "direct:dm_run_dir", q, D=D, eig=wv, vecs=vv, dirkey=dk)
     yield
 
 
@@ -306,7 +347,7 @@ def task_write(ctx, tid, t):
         obj = ph.qpoints
         fn = os.path.join(d0, "qpoints." + t["fmt"])
     elif what == "band":
-        ph.run_band_structure(_band_path(ctx, t), with_eigenvectors=t["eigvecs"], with_group_velocities=t["gv"], is_band_connection=t["conn"])
+        ph.run_band_structure(_band_path(ctx, dict(t, segments=1)), with_eigenvectors=t["eigvecs"], with_group_velocities=t["gv"], is_band_connection=t["conn"])
         d = ph.get_band_structure_dict()
         freqs = np.array(d["frequencies"][0])
         gv = np.array(d["group_velocities"][0]) if d.get("group_velocities") is not None else None
@@ -550,7 +591,7 @@ def _execute(E, w, spec, workdir):
     for key, rs in byq.items():
         base = rs[0]
         for r in rs[1:]:
-            if r["task"] == base["task"]:
+            if r["task"] == base["task"] and r["path"] == base["path"]:
                 continue
             pairs += 1
             def gv_mode(x):
